@@ -13,6 +13,9 @@
   * `sendrecv` / `sendrecv_nowrap` are composition theorems; their hypotheses are discharged by C01
     (codec), `dns_roundtrip`, `b64shift_roundtrip`, `cbk_stream`, `xor_lossless` - the instantiation is
     not spelled out as one closed corollary.
+  * `Dns.read` (XMT/Dns.lean) is only ever applied to what `Dns.write` produced; on malformed
+    messages it still shows the outcomes of the reader before its repair (index panics). The reader
+    on hostile bytes is the separate model XMT/DecodeDns.lean (C04), tied to the repaired code.
   * `cbk_block` / `cbk_shuffle_inverse` also cover `A = 0`, where Go's `i % e.A` would divide by zero:
     unreachable through `newSource` (forces `A` non-zero), see DESIGN B.4.
 -/
@@ -142,14 +145,14 @@ theorem dns_name_decodes_partial (dom pre post : Bytes) :
   Dns.nameLoop_encName dom pre post
 
 /-- **The DNS transform is lossless for every payload**: for both `dnsServer` modes, every domain of
-at most 255 bytes (any bytes, any dots), every random filler and every payload `b` of any length
+at most 255 bytes (any bytes, any dots), every random filler and every payload `b` of any length, the empty one included
 (several 256-byte records per packet, several 2048-byte packets per `Write`), `DNSTransform.Write`
 succeeds and `DNSTransform.Read` applied to the concatenation of the packets written returns exactly
 `b` and no error. -/
 theorem dns_roundtrip (server : Bool) (dom : Bytes) (rs : List (Nat → UInt8)) (b : Bytes)
-    (hb : b ≠ []) (hdom : dom.length ≤ 255) :
+    (hdom : dom.length ≤ 255) :
     ∃ pkts ws, Dns.write server dom rs b = some pkts ∧ Dns.read pkts.flatten = (ws, none) ∧ ws.flatten = b :=
-  Dns.dns_roundtrip server dom rs b hb hdom
+  Dns.dns_roundtrip_name server dom rs b (by have := Dns.encName_splitDots_length dom; omega)
 
 /-- The bound that is really needed is on the encoded question name: at most 1919 bytes (every domain
 of at most 1918 bytes). It is tight — with a name of 1920 bytes a full server-mode packet is 4097
@@ -223,5 +226,49 @@ example : ∀ server ∈ [true, false], ∀ dom ∈ ([[101,120,97,109,112,108,10
       [101,120,97,109,112,108,101,46,99,111,109]] : List Bytes),                       -- "example.com"
     (Dns.write server dom [fun _ => 7] [1, 2, 3]).map (fun pk => Dns.read pk.flatten)
       = some ([[1, 2, 3]], none) := by decide
+
+/-! ## closed instances of the composition theorems -/
+
+/-- the DNS transform as a `Transform` of the send/receive composition -/
+def dnsTransform (server : Bool) (dom : Bytes) (rs : List (Nat → UInt8)) : Transform where
+  write x := (Dns.write server dom rs x).map List.flatten
+  read y := match Dns.read y with | (ws, none) => some ws.flatten | _ => none
+
+theorem dnsTransform_lossless (server : Bool) (dom : Bytes) (rs : List (Nat → UInt8)) (hdom : dom.length ≤ 255) :
+    ∀ x, ∃ y, (dnsTransform server dom rs).write x = some y ∧ (dnsTransform server dom rs).read y = some x := by
+  intro x
+  obtain ⟨pk, ws, h1, h2, h3⟩ := dns_roundtrip server dom rs x hdom
+  exact ⟨pk.flatten, by simp [dnsTransform, h1], by simp [dnsTransform, h2, h3]⟩
+
+/-- a layer the proofs of this file cover without assumptions: the XOR wrapper with a non-empty key or
+the CBK wrapper with an accepted key and block size -/
+def ProvedLayer (L : Layer) : Prop :=
+  (∃ key, key ≠ [] ∧ L = xorLayer key) ∨
+  (∃ a b c d sz s0, Cbk.newSource a b c d sz = some s0 ∧ L = Cbk.cbkLayer s0)
+
+theorem provedLayer_good {L : Layer} (h : ProvedLayer L) : LGood L := by
+  rcases h with ⟨key, hk, rfl⟩ | ⟨a, b, c, d, sz, s0, hs, rfl⟩
+  · exact xor_lossless key hk
+  · exact cbk_stream a b c d sz s0 hs
+
+/-- **Closed instance**: a packet sent through ANY stack of XOR and CBK wrappers (any depth, any keys)
+and the DNS transform (either mode, any domain of at most 255 bytes, any filler) — or no transform —
+and read back through the receive path is the packet that was sent, for any packet codec with a round
+trip (C01 proves it for `Packet.Marshal` / `Unmarshal`). Nothing else is assumed: this is
+`sendrecv` with every hypothesis about wrappers and transform discharged by the theorems above. -/
+theorem sendrecv_xor_cbk_dns {P : Type} (m : List Layer) (hm : ∀ L ∈ m, ProvedLayer L)
+    (t : Option (Bool × Bytes × List (Nat → UInt8))) (ht : ∀ x, t = some x → x.2.1.length ≤ 255)
+    (marshal : P → List Bytes) (unmarshal : Bytes → Option P)
+    (hp : ∀ p, unmarshal (marshal p).flatten = some p) (p : P) :
+    ∃ wire, writePacket (some (multiWrap m sink)) (t.map fun x => dnsTransform x.1 x.2.1 x.2.2) (marshal p) = some wire ∧
+      readPacket (some (multiUnwrap m)) (t.map fun x => dnsTransform x.1 x.2.1 x.2.2) unmarshal wire = some p := by
+  apply sendrecv m (fun L hL => provedLayer_good (hm L hL)) _ _ marshal unmarshal hp p
+  intro tr htr
+  cases t with
+  | none => simp at htr
+  | some x =>
+    simp only [Option.map_some, Option.some.injEq] at htr
+    subst htr
+    exact dnsTransform_lossless x.1 x.2.1 x.2.2 (ht x rfl)
 
 end XMT.Props.C07
